@@ -140,7 +140,7 @@ def _stencil(f, h):
   return d
 
 
-def replay_pair_table(target, nr, npots, derivs, labels, w, route="class", h=None):
+def replay_pair_table(target, nr, npots, derivs, labels, w, route="class", h=None, after_failure=False):
   """Concrete replay of an API-route counterexample against the real writer and
   the independent reader: first with the functions of the solver's model (its
   argument/value tables, so that e.g. 'energy exactly 0 at a grid point' is
@@ -174,6 +174,22 @@ def replay_pair_table(target, nr, npots, derivs, labels, w, route="class", h=Non
     out = io.StringIO()
     cls = dict(LAMMPS=pt.LAMMPS_PairTabulation, DL_POLY=pt.DLPoly_PairTabulation, GULP=pt.GULP_PairTabulation)[target]
     cmp = dict(LAMMPS=compare_lammps, DL_POLY=compare_dlpoly, GULP=compare_gulp)[target]
+    if after_failure:
+      for nfail in (1, 2, 3):
+        cnt = [0]
+
+        def doomed(r_, cnt=cnt, nfail=nfail):
+          cnt[0] += 1
+          if cnt[0] > nfail:
+            raise ArithmeticError("injected failure")
+          return 1.0
+        try:
+          if route == "class":
+            cls([Potential(labels[0][0], labels[0][1], doomed)], cutoff, nr).write(io.StringIO())
+          else:
+            ap.writePotentials(target, [Potential(labels[0][0], labels[0][1], doomed)], cutoff, nr, io.StringIO())
+        except ArithmeticError:
+          pass
     try:
       tab = None
       if route == "class":
